@@ -471,7 +471,11 @@ class Parser:
         if (int_str.startswith("0") and int_str != '0'
                 and not int_str.startswith("0x")):
             int_str = "0o" + int_str[1:]
-        pyvalue = int(int_str, 0)
+        try:
+            pyvalue = int(int_str, 0)
+        except ValueError:
+            raise CDefError("invalid integer constant for %s: %r" % (
+                name, int_str))
         if neg:
             pyvalue = -pyvalue
         self._add_constants(name, pyvalue)
@@ -934,10 +938,14 @@ class Parser:
                 return self._c_div(left, right)
             elif exprnode.op == '%':
                 return left - self._c_div(left, right) * right
-            elif exprnode.op == '<<':
-                return left << right
-            elif exprnode.op == '>>':
-                return left >> right
+            elif exprnode.op in ('<<', '>>'):
+                if right < 0:
+                    raise CDefError(":%d: negative shift count in constant "
+                                    "expression" % exprnode.coord.line)
+                if exprnode.op == '<<':
+                    return left << right
+                else:
+                    return left >> right
             elif exprnode.op == '&':
                 return left & right
             elif exprnode.op == '|':
@@ -949,6 +957,8 @@ class Parser:
                        "simple numeric constant" % exprnode.coord.line)
 
     def _c_div(self, a, b):
+        if b == 0:
+            raise CDefError("division by zero in constant expression")
         result = a // b
         if ((a < 0) ^ (b < 0)) and (a % b) != 0:
             result += 1
